@@ -55,13 +55,15 @@ def cases(tier, seed):
                     args = ARG_MODES[(k + e) % len(ARG_MODES)]
                     if est == "bootstrap" and args == "omitted":
                         args = "shared"  # the bootstrap case needs B / lambda_ to stay cheap
-                    out.append(dict(seed=seed, i=e, env=env, estimator=est, gate=gate, args=args))
+                    # config and preprocessed data handed over by the caller, or fetched from storage by the client
+                    inputs = "storage" if (k + e) % 4 == 1 else "passed"
+                    out.append(dict(seed=seed, i=e, env=env, estimator=est, gate=gate, args=args, inputs=inputs))
                     k += 1
     if tier == "quick":  # make sure the gaussian / non-local / gate-passes child exists in every argument mode
         for args in ARG_MODES:
             if not any(s_["estimator"] == "gaussian" and s_["env"] == "prod" and s_["gate"] == "pass" and s_["args"] == args
                        for s_ in out):
-                out.append(dict(seed=seed, i=0, env="prod", estimator="gaussian", gate="pass", args=args))
+                out.append(dict(seed=seed, i=0, env="prod", estimator="gaussian", gate="pass", args=args, inputs="passed"))
     return out
 
 
@@ -96,7 +98,7 @@ def run_case(spec, inputs=None):
         out["counters"][f"outcome_{tr['outcome']}"] = out["counters"].get(f"outcome_{tr['outcome']}", 0) + 1
         if tr["puts"] or tr["files"] or tr["outcome"] == "not_enough":
             sigs.append([spec["env"], spec["estimator"], spec["gate"], tr["save_output"], tr["summary"],
-                         spec.get("args", "copied")])
+                         spec.get("args", "copied"), spec.get("inputs", "passed")])
     out["sets"]["traces"] = sigs
     out["sigs"] = sigs
     out["nontrivial"] = bool(sigs)
@@ -118,7 +120,7 @@ def check_trace(tr, spec):
     est = spec["estimator"]
     data_env = ENVS[env]["DATA_ENV"]
     where = (f"env={env} estimator={est} gate={spec['gate']} save_output={sorted(so)} summary={tr['summary']} "
-             f"model_parameters={spec.get('args', 'copied')}")
+             f"model_parameters={spec.get('args', 'copied')} inputs={spec.get('inputs', 'passed')}")
 
     def V(key, msg, **w):
         vs.append(dict(key=key, msg=f"{msg} [{where}]", witness=dict(trace=dict(puts=[p["Key"] for p in tr["puts"]],
@@ -268,7 +270,18 @@ def child(spec):
             return {"ResponseMetadata": {"HTTPStatusCode": 200}}
 
         def get_object(self, **kw):
-            raise RuntimeError(f"unexpected remote read {kw.get('Key')}")
+            import datetime
+            import io
+
+            key = kw.get("Key")
+            if spec.get("inputs") == "storage":
+                log["gets"] = log.get("gets", 0) + 1
+                if key.endswith(f"/config/{el.election_id}.json"):
+                    return {"Body": io.BytesIO(json.dumps(el.config).encode()), "LastModified": datetime.datetime(2030, 1, 1)}
+                if key.endswith(f"/data/{el.office}/data_{el.geo_type}.csv"):
+                    return {"Body": io.BytesIO(el.pre.to_csv(index=False).encode()),
+                            "LastModified": datetime.datetime(2030, 1, 1)}
+            raise RuntimeError(f"unexpected remote read {key}")
 
     s3mod.boto3.client = lambda *a, **k: FakeClient()
 
@@ -326,7 +339,8 @@ def child(spec):
                       geo_type=el.geo_type, cwd=cwd, tables=[], n_agg=len([a for a in c2["aggregates"] if a != "unit"]))
             log["active"] = True
             try:
-                res, exc = harness.run_estimates(el, feed, c2, client=client, shared_model_parameters=shared_mp)
+                res, exc = harness.run_estimates(el, feed, c2, client=client, shared_model_parameters=shared_mp,
+                                                 inputs_from_storage=(spec.get("inputs") == "storage"))
                 tr["t_outcome"] = tick()
                 if exc is None and summary:
                     client.get_national_summary_votes_estimates(None, 0, c2["prediction_intervals"])
